@@ -137,7 +137,7 @@ def body(chk):
     chk.assumptions += [
         'INV: every counter < 2^62 (no usize overflow in a run); a Skipped indicator for the scenario implies scenarios.skipped >= 1 '
         '(cardinality invariant of the map, assumed per transition, established by the BMC from the initial state)',
-        'scenario.steps.last() and gherkin::Step == are opaque oracles (symbolic Booleans has_last / eq_last)',
+        'scenario.steps.last() and gherkin::Step == are opaque oracles (symbolic Booleans has_last / eq_last); a step may look like the last own step (same keyword type and text: Booleans same_ty / same_text, implied by eq_last) without being it',
         'one scenario key; other scenarios covered by the frame + additivity obligations',
     ]
     records, obs = per_transition(chk, H, 'C12')
@@ -147,7 +147,7 @@ def body(chk):
     w.verdict = 'witness-ok' if len(records) >= 20 else 'witness-missing'
     w.detail = '%d feasible non-panicking paths' % len(records)
     summ_seq.additivity(chk, H, records, 'C12')
-    A = 3 if chk.tier == 'thorough' else 2
+    A = 3      # a scenario counted twice as retried needs three attempts
     NS = 3 if chk.tier == 'thorough' else 2
     summ_seq.sequence_obligations(chk, H, records, 'C12', attempts=A, steps=NS)
     summ_event.handle_event_obligations(chk, 'C12')
